@@ -194,6 +194,9 @@ class Canon:
             return self.mk_min(self.norm_extent(self.canon(t[3][0])), self.norm_extent(self.canon(t[3][1])))
         if t[0] in ("nrows", "ncols", "len"):
             c = t[1]
+            if c[0] == "col" and t[0] in ("nrows", "len"):
+                # a column has the rows of its matrix
+                return self.norm_extent(("nrows", c[1]))
             dims = alloc_dims(c)
             if dims is not None:
                 r, cc = dims
@@ -453,6 +456,73 @@ def column_writes(cn, effs):
     return out
 
 
+def elementwise_column_writes(cn, effs):
+    """[Write] kind 'colelems': a column `col(A, k)` written element by element — a store into element i of the column
+    with i the counter of an iteration (loop or driven closure). idx = (k,), val = ("elems", value, i, n, blk) with n the
+    length of the inlining chain down to the body that holds the element iteration and blk the block of its driver
+    (the call of for_each / the loop's next()). Whether the element iteration covers the column is decided by
+    `elements_cover_column`."""
+    out = []
+    for w in element_writes(cn, effs):
+        if w.D is None or w.D[0] != "col" or len(w.idx) != 1 or w.idx[0][0] != "iv":
+            continue
+        key = [k for k, n in cn.keys.items() if n == w.idx[0][1]]
+        if not key or key[0][0] != "drv":
+            continue
+        m = key[0][1]
+        if m and m[0] == "next":
+            _, bkey, blk, path = m
+        else:
+            _, bkey, blk, path = m
+        chain = chain_of(w.eff, cn.ev.facts)
+        if chain is None or len(chain) <= len(path) or chain[len(path)][0].key != bkey:
+            continue
+        out.append(Write(w.D[1], (w.D[2],), ("elems", w.val, w.idx[0], len(path) + 1, blk), w.eff, "colelems"))
+    return out
+
+
+def elements_cover_column(cn, w):
+    """(ok, reason) for a 'colelems' write: the element iteration visits every row of the column (its extent is the
+    row count of the container, lock-step partners being at least as long by the guards on the way), the store happens
+    in every one of its rounds, and the iteration runs to completion (a driven for_each, or a loop left only when
+    exhausted)"""
+    inner = w.val[2]
+    ew = Write(("col", w.D, w.idx[0]), (inner,), w.val[1], w.eff, "elem")
+    if not extent_covers(cn, ew, inner, ("nrows", w.D)):
+        return False, "the element-wise copy (`%s` rounds) may end before all rows of the column are written" % (short(cn.extent.get(inner[1]))[:80] if cn.extent.get(inner[1]) else "?")
+    ok, why = written_each_iteration(cn, ew, inner)
+    if not ok:
+        return False, why
+    key = [k for k, n in cn.keys.items() if n == inner[1]][0]
+    m = key[1]
+    chain = chain_of(w.eff, cn.ev.facts)
+    if m and m[0] == "next":
+        _, bkey, nblk, path = m
+        body = chain[len(path)][0]
+        loops = [(h_, bl) for h_, bl in body.natural_loops().items() if nblk in bl]
+        if not loops:
+            return False, "element loop not found"
+        h, blks = min(loops, key=lambda x: len(x[1]))
+        exh = None
+        nt = body.blocks[nblk]["term"]
+        for (sb, si, pk, variants) in body.discr_switches():
+            if sb in blks and pk[0] == nt["dest"]["l"] and not pk[1]:
+                exh, _ = variant_edge(body, sb, "None")
+        if not exh:
+            return False, "element loop exit not found (undetermined)"
+        r2 = body.reachable(h, avoid_edges=set(exh))
+        if any(x in r2 for x in body.exits()):
+            return False, "the element loop can be left before all rows are written"
+        return True, ""
+    clo_key, bkey, cbi, path = m
+    body = chain[len(path)][0]
+    ct = body.blocks[cbi]["term"]
+    nm = ct["fn"]["name"] if "fn" in ct else ""
+    if nm != "for_each":
+        return False, "the element-wise copy is driven by `%s`, not by for_each (undetermined)" % nm
+    return True, ""
+
+
 def generator_of(cn, t):
     """a container given by a generator instead of being filled:
          from_fn(dims.., f)        -> (dims, f(iv_r, iv_c))
@@ -480,6 +550,21 @@ def generator_of(cn, t):
             return None
         v = ev.apply(clo, ivs, ("tab-gen", 0, ()), Env(cb))
         return tuple(cn.norm_extent(cn.canon(d)) for d in dims), cn.canon(v), tuple(ivs)
+    if n in ("from_iterator_generic", "from_iterator") and "nalgebra" in t0[1] and len(t0[3]) >= 2:
+        # a vector built from an iterator (column-major fill): element k is the iterator's k-th element. Only the
+        # single-column form is given a meaning here (`from_iterator_generic(n, U1, it)` / `DVector::from_iterator(n, it)`)
+        it = t0[3][-1]
+        dims = [dimval(x) for x in t0[3][:-1]]
+        one = lambda d: d == ("const", "usize", 1) or (d[0] == "constitem" and d[1].endswith("U1"))
+        if len(dims) == 1 or (len(dims) == 2 and one(dims[1])):
+            key = ("gen", cn._nosite(t0), 0)
+            iv = cn.iv_for(key, ("agg", "std::ops::Range", None, (("start", ("const", "usize", 0)), ("end", dims[0]))))
+            ext = cn.extent_of(it)
+            d0 = cn.norm_extent(cn.canon(dims[0]))
+            # the iterator must deliver at least that many elements (nalgebra panics otherwise): its extent is the length
+            if ext is not None and (ext == d0 or (ext[0] == "min" and d0 in ext[1])):
+                return (d0,), cn.canon(cn.nth(it, iv)), (iv,)
+        return None
     if n in ("rows_generic", "rows") and "nalgebra" in t0[1] and len(t0[3]) == 3:
         # an owned copy of a row range of a vector: element k is V[k + start], for k below the given length
         V = cn.container(t0[3][0])
@@ -727,15 +812,38 @@ def chain_of(e, F):
     return out
 
 
-def written_each_iteration(cn, w, iv):
+def write_chain(cn, w):
+    """the inlining chain of a write; for a column written element by element the chain ends at the driver of the
+    element iteration (what happens inside that iteration is decided separately, see elementwise_column_writes)"""
+    chain = chain_of(w.eff, cn.ev.facts)
+    if chain is not None and w.kind == "colelems":
+        chain = chain[:w.val[3]]
+        chain[-1] = (chain[-1][0], w.val[4])
+    return chain
+
+
+def written_each_iteration(cn, w, iv, alts=()):
     """(ok, reason): the write `w` is executed in every iteration of the loop / driven closure that `iv`
     counts, on every path of that iteration that does not leave with a failure — also when the write
-    sits in helpers called from the iteration body (each helper must write on all its success paths)"""
+    sits in helpers called from the iteration body (each helper must write on all its success paths).
+    `alts`: other writes of the same column of the same container (a fast path and its fallback): at every level
+    the paths must pass through one of them"""
     F = cn.ev.facts
     e = w.eff
-    chain = chain_of(e, F)
+    chain = write_chain(cn, w)
     if chain is None or iv[0] != "iv":
         return False, "write site not resolved"
+    alt_chains = [c for c in (write_chain(cn, a) for a in alts) if c]
+
+    def blocks_at(level):
+        """the blocks, in the body at `level` of the chain, of this write and of its alternatives that reach that body
+        through the same calls"""
+        out = {chain[level][1]}
+        for c in alt_chains:
+            if len(c) > level and all(c[i][0] is chain[i][0] or c[i][0].key == chain[i][0].key for i in range(level + 1)) \
+                    and all(c[i][1] == chain[i][1] for i in range(level)):
+                out.add(c[level][1])
+        return out
     key = None
     for k, n in cn.keys.items():
         if n == iv[1]:
@@ -743,8 +851,9 @@ def written_each_iteration(cn, w, iv):
     if key is not None and key[0] == "gen":
         # a block write performs all its columns at once: what remains is that helpers on the way to it perform it on
         # every success path
-        for body, blk in chain[1:]:
-            if not body.must_pass(0, success_returns(body), {blk}):
+        for lv in range(1, len(chain)):
+            body = chain[lv][0]
+            if not body.must_pass(0, success_returns(body), blocks_at(lv)):
                 return False, "helper `%s` can return successfully without performing the write" % body.key[-60:]
         return True, ""
     if key is None or key[0] != "drv":
@@ -772,7 +881,7 @@ def written_each_iteration(cn, w, iv):
                     entry = yes[0][1]
         if entry is None:
             return False, "loop test not found"
-        if h in body.reachable(entry, avoid={blk}):
+        if h in body.reachable(entry, avoid=blocks_at(level)):
             return False, "a path through the loop body returns to the loop header without performing the write"
     else:
         # a closure driven by an iterator adapter: (closure key, caller key, block, call path)
@@ -781,13 +890,35 @@ def written_each_iteration(cn, w, iv):
         if level >= len(chain) or chain[level][0].key != clo_key:
             return False, "the write is not inside the closure driven by the iteration"
         body, blk = chain[level]
-        if not body.must_pass(0, success_returns(body), {blk}):
+        if not body.must_pass(0, success_returns(body), blocks_at(level)):
             return False, "a path through the per-element closure reports success without performing the write"
     # deeper levels: helpers must write on all their success paths
-    for body, blk in chain[level + 1:]:
-        if not body.must_pass(0, success_returns(body), {blk}):
+    for lv in range(level + 1, len(chain)):
+        body = chain[lv][0]
+        if not body.must_pass(0, success_returns(body), blocks_at(lv)):
             return False, "helper `%s` can return successfully without performing the write" % body.key[-60:]
     return True, ""
+
+
+def chain_relations(cn, e):
+    """canonical size relations that hold whenever the effect `e` is executed: the guards dominating it in its own body,
+    and those dominating, in every caller on the inlining chain, the call (or the driver of the closure) that leads to it"""
+    rels = []
+    envs = []
+    x = e.env
+    while x is not None:
+        envs.append(x)
+        x = getattr(x, "parent", None)
+    envs.reverse()
+    sites = [(e.env, e.block)]
+    if len(envs) == len(e.env.path) + 1:
+        sites += [(env, e.env.path[i][1]) for i, env in enumerate(envs[:-1])]
+    for env, blk in sites:
+        g = Guards(cn.ev, env.body, env)
+        for r in g.relations_at(blk)[0]:
+            if r[0] in ("Le", "Lt", "Eq"):
+                rels.append((r[0], cn.norm_extent(cn.canon(r[1])), cn.norm_extent(cn.canon(r[2]))))
+    return rels
 
 
 def extent_covers(cn, w, iv, d):
@@ -803,11 +934,7 @@ def extent_covers(cn, w, iv, d):
     def facts():
         if not have[0]:
             have[0] = True
-            chain = chain_of(w.eff, cn.ev.facts) or []
-            g = Guards(cn.ev, w.eff.body, w.eff.env)
-            for r in g.relations_at(w.eff.block)[0]:
-                if r[0] in ("Le", "Lt", "Eq"):
-                    rels.append((r[0], cn.norm_extent(cn.canon(r[1])), cn.norm_extent(cn.canon(r[2]))))
+            rels.extend(chain_relations(cn, w.eff))
         return rels
 
     def same(x, y):
